@@ -191,8 +191,8 @@ package ps
 //@   requires [prefix] increasingIn(currentSubGroup, 1, i)
 //@   modifies currentSubGroup[*]
 //@   decreases n - i
-//@   on-call f(s):
-//@     assert [subset] len(s) == targetAmount && increasingIn(s, 1, n)
+//@   iterates f(s)
+//@   iterates-requires [subset] len(s) == targetAmount && increasingIn(s, 1, n)
 //@
 //@ func chooseKoutOfN
 //@   props C18 C05 C11
